@@ -23,6 +23,12 @@ class Sym(Value):
         return hash(self.r.key())
 
 
+class ArrSym(Sym):
+    """an elementwise symbol known to stand for an ndarray (not a Python number): in-place operations on it are seen through every alias
+    (the caller's variable when a helper scales its argument in place)"""
+    is_array = True
+
+
 def num_to_fraction(v):
     if isinstance(v, bool):
         return Fraction(int(v))
@@ -101,6 +107,9 @@ class NormDomain(Domain):
     # -- hooks -------------------------------------------------------------
     def param(self, fi, name, default):
         return self.sym(name)
+
+    def mark_array(self, v):
+        return ArrSym(v.r) if isinstance(v, Sym) and not isinstance(v, ArrSym) else v
 
     def binop(self, op, a, b, node):
         if not (isinstance(a, Sym) or isinstance(b, Sym)):
